@@ -24,6 +24,8 @@ pub fn roots(tier: &str) -> Vec<TrioRoot> {
             (false, 1_000_000, 2, [1u128 << 100, 1u128 << 100, 1u128 << 99], false),
             (false, 100, 1, [0, 0, 0], false),
         ]
+    } else if tier == "deep" {
+        vec![(false, 100, 1, [e9, e9, e9], false), (true, 1, 0, [e9, e9 / 100, e9 * 100], true)]
     } else {
         let mut c = vec![];
         for cw in [false, true] {
@@ -106,9 +108,13 @@ pub fn run(tier: &str, seed: u64) -> i32 {
         "amounts from a reserve-relative alphabet; histories bounded by the stated depth".into(),
     ];
     amp_grid(&mut ev);
-    let depth = if tier == "quick" { 3 } else { 4 };
-    let cfg = default_cfg("C04", tier, seed, depth);
+    // every root of the tier to depth 3; thorough adds depth 4 from the 'deep' roots (two pools + the mid-ramp pool)
+    let cfg = default_cfg("C04", tier, seed, 3);
     ev.add_report(explore(&scenario(tier, true), &cfg));
+    if tier != "quick" && ev.violations.is_empty() {
+        let cfg = default_cfg("C04", tier, seed, 4);
+        ev.add_report(explore(&scenario("deep", true), &cfg));
+    }
     if ev.violations.is_empty() {
         for c in ["provide:ok", "provide:first", "withdraw:ok", "swap:ok", "swap:protocol_fee>0", "probe:there_and_back", "ramp:accepted", "ramp:rejected", "amp:mid_ramp_state", "collect:nonzero"] {
             ev.require_counter(c, 1);
@@ -122,6 +128,9 @@ pub fn replay(doc: &Value) -> bool {
         println!("amp grid point {}", doc["point"]);
         return true;
     }
-    let tier = doc["tier"].as_str().unwrap_or("quick");
+    // roots are resolved by label; the thorough list contains every root of the other lists except the empty-pool
+    // quick root, which the quick list has
+    let label = doc["root_label"].as_str().unwrap_or("");
+    let tier = if scenario("thorough", true).roots.iter().any(|r| r.label == label) { "thorough" } else { "quick" };
     replay_trace(&scenario(tier, true), doc)
 }
